@@ -61,7 +61,7 @@ def judgeFor (prop : String) : Except String (Case → ObsLine → Verdict) :=
   | "C19" => pure (judgeTabWith [])
   | "C07" => pure judgeC07
   | "C08" => pure judgeVisAny
-  | "C09" => pure (judgeVis true)
+  | "C09" => pure (fun c o => judgeVis true c o (valuesOracle := true))
   | "C16" => pure judgeC16
   | "C17" => pure (judgeVis true)
   | "C18" => pure judgeParse
